@@ -16,13 +16,26 @@ func init() {
 }
 
 
+// c14Err: the failure value of the reader / writer is the caller's business: a fresh error, or one of the context
+// package's own error values (a body or connection bound to some other context that was cancelled or timed out).
+func c14Err(fresh error) error {
+	switch verifChoose("errkind", 0, 2) {
+	case 1:
+		return context.Canceled
+	case 2:
+		return context.DeadlineExceeded
+	}
+	return fresh
+}
+
 // VerifC14Reader: the reader delivers the first k rows of a well-formed document and then fails with a fresh
 // error; every sequential From-Markdown route must return that error (recognisable with errors.Is).
 func VerifC14Reader() {
 	n := verifN()
 	lines, rows := wellFormedLines(n, verifName)
 	k := int(verifChoose("cut", 0, uint(n)))
-	r := &verifReader{lines: rows[:k], err: errVerifRead}
+	readErr := c14Err(errVerifRead)
+	r := &verifReader{lines: rows[:k], err: readErr}
 	w := newVerifWriter()
 	var err error
 	route := verifChoose("route", 0, 10)
@@ -66,13 +79,13 @@ func VerifC14Reader() {
 	}
 	if route >= 6 {
 		verifAssert(err != nil, "C14.reader.nonnil/massive")
-		verifAssert(errors.Is(err, errVerifRead), "C14.reader.is/massive")
+		verifAssert(errors.Is(err, readErr), "C14.reader.is/massive")
 		verifAssert(verifQuiesce() == 0, "C14.reader.noleak")
 		verifReach("C14.reader.end")
 		return
 	}
 	verifAssert(err != nil, "C14.reader.nonnil")
-	verifAssert(errors.Is(err, errVerifRead), "C14.reader.is")
+	verifAssert(errors.Is(err, readErr), "C14.reader.is")
 	verifReach("C14.reader.end")
 }
 
@@ -107,6 +120,7 @@ func VerifC14Writer() {
 	}
 	w := newVerifWriter()
 	w.failAt = int(verifChoose("failAt", 0, uint(n)))
+	w.err = c14Err(errVerifWrite)
 	r := &verifReader{lines: rows}
 	var err error
 	verifContext("C14.writer")
